@@ -24,6 +24,24 @@ TEXT = {
  },
 }
 
+_HIST_NOTE = ("Trusted: vfkit hardware model + sysfs writer, the runtime reference model and generators in overlay/resmgr, read-only white-box snapshot hooks "
+              "(build tags verif,verifwb, compiled in through go build -overlay). Bounded machines (<= 32-64 CPUs, <= 8-10 memory nodes) and histories (<= 45 requests); "
+              "absence beyond the generated cases is not established. Known findings listed in known-findings.json are reported as KNOWN-FINDING lines and excluded by structural signature.")
+def _hist_text(what):
+    return ("Hundreds (quick) to tens of thousands (thorough) of generated request histories executed against a real in-process resource manager "
+            "(real policy backend, real cache, real sysfs discovery on a generated fixture); after every request " + what +
+            ". Failures are shrunk by rapid and by an operation-removal pass, and the concrete case is written as a replay file that is re-executed without rapid.")
+for _p, _w in {
+ "C01": "the exclusive CPU sets of all live containers (white-box grants) are compared pairwise, against every other container's told cpuset (runtime model), every pool's shared set (white-box and advertised zones), the configured available set and the reserved set with the documented reserved-class rule",
+ "C02": "balloon cpusets, membership, told cpusets, shared idle CPUs (scope computed from the hardware model), per-type limits, request coverage and CPU class assignments are checked against the configuration and the model",
+ "C03": "per-pool capacity ledgers (sum of grant portions vs. shared/reserved CPUs left in the subtree), non-empty pinning, a reference implementation of the documented eligibility table and the kubelet shares formula are evaluated for every live container",
+ "C04": "each container's told cpuset.mems is compared with the policy allocator's AssignedZone, checked for existence/memory against the model, and every subset of memory nodes is checked for capacity",
+ "C05": "the runtime reference model (creation values overlaid by every adjustment, update and push) is compared field by field with the cache, pending marks are inspected, and each reply is checked for duplicate or dead targets",
+ "C09": "no grant, balloon membership or memory request may belong to a non-live container, and after a generated drain the policy state is compared with a pristine instance of the final configuration",
+ "C12": "every adjustment, update and push addressed to an opted-out container is inspected before it is applied to the runtime model",
+}.items():
+    TEXT[_p] = {"level_text": _hist_text(_w), "level_note": _HIST_NOTE}
+
 _ALL = ["C%02d" % i for i in range(1, 21)]
 NOT_APPLICABLE = [
  {"property_id": p, "reason": "check not built yet in this session (planned, see DESIGN.md section 3); not a statement that the technique cannot apply"}
